@@ -88,13 +88,17 @@ fn baseline(user: bool, matrix: Matrix) -> Case {
         Row::new("京都", 0, 0, -32767, P_PROPN).reading("キョウト").synonyms("1/5"),
         Row::new("行く", 1, 1, 5105, P_VERB).reading("イク"),
         Row::new("行っ", 1, 1, 5122, P_VERB2).reading("イッ").norm("行く").dic_form("5"),
+        // two homographs for inline references: the first is written differently from its key and
+        // read like its headword, the second is read like its key
+        Row::new("ab", 1, 1, 50, P_NOUN).headword("ＡＢ").reading("ＡＢ"),
+        Row::new("ab", 1, 1, 60, P_NOUN).reading("ab"),
         Row::new("さ", 1, 1, 700, P_NOUN).reading("サ"),
         Row::new("ん", 1, 0, 900, P_PROPN).reading("ン").norm("む").synonyms("7"),
     ];
     let mut system = system;
     if user {
         // the system dictionary of the user case has no probe row
-        system.remove(7);
+        system.remove(9);
     }
     let user_rows = vec![Row::new("府", 1, 1, 2914, P_NOUN).reading("フ"), Row::new("す", 0, 0, 10, P_NOUN).reading("ス"), Row::new("を", 1, 1, 20, P_PROPN).reading("ヲ").norm("お").splits("C", "0/U0", "*")];
     let mut c = Case { system, user: if user { user_rows } else { vec![] }, probe_in_user: user, matrix };
@@ -193,6 +197,11 @@ pub fn deviations() -> Vec<Dev> {
         p.mode = "C".into();
         p.split_a = "あ,名詞,普通名詞,一般,*,*,*,ア/𠮷,名詞,普通名詞,一般,*,*,*,ヨシ".into();
     }));
+    d.push(dev("split_a", "A split inline to a word whose headword differs from its key".into(), |c| {
+        let p = c.probe();
+        p.mode = "C".into();
+        p.split_a = "ab,名詞,普通名詞,一般,*,*,*,ＡＢ/あ,名詞,普通名詞,一般,*,*,*,ア".into();
+    }));
     d.push(dev("split_a", "A split with U-reference / mixed".into(), |c| {
         let pu = c.probe_in_user;
         let p = c.probe();
@@ -214,6 +223,11 @@ pub fn deviations() -> Vec<Dev> {
         let p = c.probe();
         p.mode = "C".into();
         p.split_b = if pu { "府,名詞,普通名詞,一般,*,*,*,フ/い,名詞,普通名詞,一般,*,*,*,イ".into() } else { "い,名詞,普通名詞,一般,*,*,*,イ/さ,名詞,普通名詞,一般,*,*,*,サ".into() };
+    }));
+    d.push(dev("split_b", "B split inline to the second of two homographs (read like its key)".into(), |c| {
+        let p = c.probe();
+        p.mode = "C".into();
+        p.split_b = "ab,名詞,普通名詞,一般,*,*,*,ab/い,名詞,普通名詞,一般,*,*,*,イ".into();
     }));
     d.push(dev("structure", "word structure numeric".into(), |c| c.probe().word_structure = "1/0/4".into()));
     d.push(dev("structure", "word structure of 127 items".into(), |c| c.probe().word_structure = vec!["1"; 127].join("/")));
